@@ -158,11 +158,15 @@ type scenario struct {
 	Races  int      `json:"races"`
 	// LongLived: all passes of a history run in one operator process (states rebuilt by path replay)
 	LongLived bool `json:"longLived"`
-	Twin      bool `json:"twin"` // a second Package using the same manifest name exists
+	// StartPaused: the Package is created with spec.paused=true; ODDeletes: budget of a third
+	// party deleting the ObjectDeployment
+	StartPaused bool `json:"startPaused"`
+	ODDeletes   int  `json:"odDeletes"`
+	Twin        bool `json:"twin"` // a second Package using the same manifest name exists
 }
 
 func (sc scenario) name() string {
-	return fmt.Sprintf("package env=%s images=%v configs=%v edits=%d faults=%d pauses=%d races=%d twin=%v longLived=%v", sc.Env, sc.Images, sc.Confs, sc.Edits, sc.Faults, sc.Pauses, sc.Races, sc.Twin, sc.LongLived)
+	return fmt.Sprintf("package env=%s images=%v configs=%v edits=%d faults=%d pauses=%d races=%d twin=%v longLived=%v startPaused=%v odDeletes=%d", sc.Env, sc.Images, sc.Confs, sc.Edits, sc.Faults, sc.Pauses, sc.Races, sc.Twin, sc.LongLived, sc.StartPaused, sc.ODDeletes)
 }
 
 var pkgKey = world.PKOKey("Package", world.NS, "p")
@@ -398,8 +402,9 @@ func system(sc scenario) *world.System {
 				}
 			}
 			p := &corev1alpha1.Package{ObjectMeta: metav1.ObjectMeta{Name: "p", Namespace: world.NS, Labels: map[string]string{"package-operator.run/package": "app"}},
-				Spec: corev1alpha1.PackageSpec{Image: sc.Images[0]}}
+				Spec: corev1alpha1.PackageSpec{Image: sc.Images[0], Paused: sc.StartPaused}}
 			w.MustCreate(p)
+			w.Budget["od-delete"] = sc.ODDeletes
 			if sc.Twin {
 				w.MustCreate(&corev1alpha1.Package{ObjectMeta: metav1.ObjectMeta{Name: "twin", Namespace: world.NS, Labels: map[string]string{"package-operator.run/package": "app"}},
 					Spec: corev1alpha1.PackageSpec{Image: "v1"}})
@@ -481,6 +486,13 @@ func system(sc scenario) *world.System {
 					return nil
 				}})
 			}
+			if w.Budget["od-delete"] > 0 && w.S.Objs[odKey] != nil {
+				evs = append(evs, world.Event{Name: "third-party:delete-deployment", Apply: func(w *world.World) *world.Pass {
+					w.Budget["od-delete"]--
+					_ = w.S.Delete(odKey, kmodel.DeleteOpts{})
+					return nil
+				}})
+			}
 			if w.Budget["race"] > 0 {
 				// another writer (the ObjectDeployment controller, a user) updates the ObjectDeployment
 				// between two calls of the Package pass: the pass's next write of it conflicts
@@ -535,6 +547,24 @@ func consImageNames() []string {
 	return out
 }
 
+// PauseSystems are the Package-level pause systems (used by C09 as well): a Package that starts
+// paused or not, is paused / unpaused by the user, edited, and whose ObjectDeployment may be
+// deleted by a third party.
+func PauseSystems(quick bool) []*world.System {
+	scs := []scenario{
+		{Env: "k8s-1.27", Images: []string{"v1", "v2"}, Confs: []string{"none"}, Edits: 1, Pauses: 2, ODDeletes: 1},
+		{Env: "k8s-1.27", Images: []string{"v1", "v2"}, Confs: []string{"none"}, Edits: 1, Pauses: 1, StartPaused: true},
+	}
+	if !quick {
+		scs = append(scs, scenario{Env: "k8s-1.27", Images: []string{"v1", "tmpl", "missing"}, Confs: []string{"none", "x1"}, Edits: 2, Pauses: 2, ODDeletes: 1, StartPaused: true, Faults: 1})
+	}
+	var out []*world.System
+	for _, sc := range scs {
+		out = append(out, system(sc))
+	}
+	return out
+}
+
 func scenarios(quick bool) []scenario {
 	all := []string{"v1", "v2", "tmpl", "missing", "nomanifest", "twomanifests", "badyaml", "nophase", "openshiftonly", "k8s130", "unique"}
 	sort.Strings(all)
@@ -547,6 +577,8 @@ func scenarios(quick bool) []scenario {
 		{Env: "k8s-1.27", Images: append([]string{"v1"}, consImageNames()...), Confs: []string{"none"}, Edits: 2},
 		{Env: "ocp-4.12", Images: append([]string{"v1"}, consImageNames()...), Confs: []string{"none"}, Edits: 2},
 		{Env: "k8s-1.27", Images: []string{"v1", "v2", "tmpl", "nophase", "missing"}, Confs: []string{"none", "x1", "x2"}, Edits: 3, LongLived: true},
+		{Env: "k8s-1.27", Images: []string{"v1", "v2"}, Confs: []string{"none"}, Edits: 1, Pauses: 2, ODDeletes: 1},
+		{Env: "k8s-1.27", Images: []string{"v1", "v2"}, Confs: []string{"none"}, Edits: 1, Pauses: 1, StartPaused: true},
 	}
 	if !quick {
 		out = append(out,
@@ -594,9 +626,9 @@ func init() {
 		},
 		Subs: []*checks.Sub{{Name: "bfs", Shards: func(t string) int {
 			if t == "thorough" {
-				return 11
+				return 13
 			}
-			return 8
+			return 10
 		}, Run: run, Replay: replay, Parallel: true}},
 	})
 }
